@@ -322,6 +322,7 @@ type LakeRun struct {
 	Res      *Result
 	Tag      string // prefix for failure signatures, e.g. "C14"
 	Log      []string
+	Ops      []HOp // every operation applied so far, in full (the self-contained replay)
 	Remote   bool
 	// ReadObjBytes, when set, fetches the row file of a data object (used when the
 	// lake lives on a real file system instead of the in-memory engine)
@@ -483,7 +484,7 @@ func (lr *LakeRun) fail(sig, detail string, replay any, expected, observed strin
 }
 
 func (lr *LakeRun) replay(extra map[string]any) map[string]any {
-	m := map[string]any{"pool": lr.Cfg.String(), "history": lr.Log, "remote": lr.Remote}
+	m := map[string]any{"pool": lr.Cfg.String(), "cfg": lr.Cfg, "ops": append([]HOp(nil), lr.Ops...), "history": lr.Log, "remote": lr.Remote}
 	for k, v := range extra {
 		m[k] = v
 	}
@@ -503,6 +504,7 @@ func msgOf(s string) api.CommitMessage { return api.CommitMessage{Author: "zvh",
 // (e.g. nothing to pick); err is an API error (recorded in the log; whether
 // it is legitimate is decided by the caller-visible oracles).
 func (lr *LakeRun) Apply(op HOp) (err error) {
+	lr.Ops = append(lr.Ops, op)
 	if lr.Coq == nil || op.Branch != "main" {
 		return lr.apply(op, nil)
 	}
@@ -924,10 +926,29 @@ func (lr *LakeRun) CheckBranch(name string) {
 	if err != nil {
 		return
 	}
+	var prevFrom *K
+	var prevObj ObjInfo
 	for _, o := range objs {
 		vals, err := lr.ReadObject(o.ID)
 		if err != nil {
 			continue
+		}
+		// the object list itself is in pool order of the objects' first keys (the
+		// Slicer's sweep over overlapping objects relies on it)
+		if len(vals) > 0 {
+			if k, ok := lr.keyOf(vals[0]); ok {
+				if k.Kind == "missing" {
+					k = K{Kind: "null"}
+				}
+				if prevFrom != nil {
+					c := CmpK(*prevFrom, k)
+					if (!lr.Cfg.Desc && c > 0) || (lr.Cfg.Desc && c < 0) {
+						lr.fail(lr.Tag+":object-list-order", fmt.Sprintf("the object list of %s (%s) is not in pool order of first keys: object %s [%s,%s] is listed before object %s [%s,%s]", name, lr.Cfg, prevObj.ID, prevObj.Min, prevObj.Max, o.ID, o.Min, o.Max), lr.replay(nil), "objects ordered by first key", prevFrom.Zson()+" before "+k.Zson())
+					}
+				}
+				kk := k
+				prevFrom, prevObj = &kk, o
+			}
 		}
 		// every object holds its values in pool order
 		lr.checkOrder(name+" object "+o.ID.String()[:8], vals, "object-internal-order")
